@@ -406,7 +406,7 @@ def execute(ctx, case):
         ctx.cell("grouped", case["members"], case["pos"], "same-name" if case["same_name"] else "own-name")
     for r in expected[:50]:
         for t, n in am.compare_slots(r):
-            v = getattr(r, n)
+            v = am.slot_value(r, n)
             if t == "datetime" and v is not None:
                 m = am.micros(v)
                 ctx.event("dt_value:" + ("pre-1970" if m < 0 else "below-2^32us" if m <= 0xFFFFFFFF else "year>=9999" if v.year >= 9999 else "other"))
